@@ -77,6 +77,17 @@ pub struct Runner {
     pub stranger: Uuid,
     /// a second server instance on the same data (requests alternate between the two)
     pub driver2: Option<Box<dyn Driver>>,
+    /// outcome of an upload carried out by an "Overlap" step, consumed by the next AddVersion/AddSnapshot step
+    pub injected: Option<Injected>,
+    /// address of the in-process socket server (socket driver)
+    pub sock_addr: Option<String>,
+}
+
+pub struct Injected {
+    pub a: Uuid,
+    pub tok: i64,
+    pub out: Out,
+    pub h: Option<HttpInfo>,
 }
 
 pub fn out_to_resp(out: &Out, namer: &mut Namer, pay: &Payloads) -> RespRec {
@@ -155,6 +166,8 @@ impl Runner {
             emulate_create: false,
             stranger: Uuid::new_v4(),
             driver2: None,
+            injected: None,
+            sock_addr: None,
         };
         r.open()?;
         if job["twin"].as_bool() == Some(true) {
@@ -191,7 +204,10 @@ impl Runner {
         let cnt = Counting::new(st.clone());
         if self.driver_kind == "sock" {
             let cfg = ServerConfig { snapshot_days: self.days, snapshot_versions: self.versions };
-            self.driver = Some(Box::new(crate::sock::start_inproc(cfg, self.allow.clone(), Shared(cnt.clone()))?));
+            let workers = self.job["workers"].as_u64().unwrap_or(2) as usize;
+            let d = crate::sock::start_inproc(cfg, self.allow.clone(), Shared(cnt.clone()), workers)?;
+            self.sock_addr = d.addrs.first().cloned();
+            self.driver = Some(Box::new(d));
         } else {
             self.driver = Some(make_driver(&self.driver_kind, self.days, self.versions, self.allow.clone(), Shared(cnt.clone())));
         }
@@ -301,6 +317,184 @@ impl Runner {
             "fresh" => Uuid::new_v4(),
             _ => Uuid::nil(),
         }
+    }
+
+    /// Argument id, payload token and bytes of an upload step (AddVersion / AddSnapshot).
+    fn upload_args(&mut self, s: &Value, ci: usize) -> (Uuid, i64, Vec<u8>) {
+        // "replay": k = send again exactly the (parent, payload) of the k-th accepted version counted from the latest
+        let replay = s.get("replay").and_then(|x| x.as_u64()).and_then(|k| {
+            let acc = &self.ledger.acc[ci];
+            let toks = &self.ledger.toks[ci];
+            if acc.is_empty() || toks.len() != acc.len() {
+                None
+            } else {
+                let i = acc.len() - 1 - (k as usize).min(acc.len() - 1);
+                self.pay.bytes_of(toks[i]).cloned().map(|b| (acc[i].1, toks[i], b))
+            }
+        });
+        // "payload_only": the replayed bytes travel with the parent named by "arg" (a replica that is behind
+        // uploading bytes the server already holds)
+        let a = match &replay {
+            Some((p, _, _)) if !s["payload_only"].as_bool().unwrap_or(false) => *p,
+            _ => self.resolve(&s["arg"], ci),
+        };
+        let (tok, body) = match s.get("bytes").and_then(|b| b.as_str()) {
+            _ if replay.is_some() => {
+                let (_, t, b) = replay.clone().unwrap();
+                (t, b)
+            }
+            Some(hex) => {
+                let b = crate::unhex(hex);
+                (self.pay.intern(b.clone()), b)
+            }
+            None if s.get("gen").map(|g| g.is_object()).unwrap_or(false) => {
+                let g = &s["gen"];
+                let b = gen_payload(g["cls"].as_str().unwrap_or("random"), g["size"].as_u64().unwrap_or(1) as usize,
+                                    g["seed"].as_u64().unwrap_or(1) + ((self.run as u64) << 32));
+                (self.pay.intern(b.clone()), b)
+            }
+            None if s.get("size").and_then(|x| x.as_u64()).is_some() => {
+                let n = self.pay.fresh_tok();
+                let b = big_payload(n + (self.run << 20), s["size"].as_u64().unwrap() as usize);
+                (self.pay.intern(b.clone()), b)
+            }
+            None => {
+                let tok = self.pay.fresh_tok();
+                (tok, self.pay.make(tok))
+            }
+        };
+        (a, tok, body)
+    }
+
+    /// Execute one step that may stand for several requests; returns their events in the order in which the requests
+    /// were completed.
+    ///
+    /// "Overlap": {"uploads": [step..], "order": [i.. | -1], "between": [step..]} - the uploads (AddVersion / AddSnapshot
+    /// steps) travel over their own connections in chunked transfer encoding, piece by piece in the given order (entry i =
+    /// upload i sends its next piece; its last piece ends the request and its response is read before anything else
+    /// happens); entry -1 = the "between" steps are executed now, while the uploads that have begun are still in flight.
+    /// A request takes effect when its body is complete, so the recorded order of completion is the sequential history
+    /// the responses must be explained by.
+    pub fn step_multi(&mut self, s: &Value, idx: usize) -> (Vec<Value>, bool) {
+        if s["op"] != "Overlap" {
+            let (ev, stop) = self.step(s, idx);
+            return (vec![ev], stop);
+        }
+        let mut events: Vec<Value> = vec![];
+        let addr = match self.sock_addr.clone() {
+            Some(a) => a,
+            None => {
+                let mut ev = self.reset_event();
+                ev["toolerr"] = json!("Overlap needs the socket driver");
+                return (vec![ev], true);
+            }
+        };
+        let ups = s["uploads"].as_array().cloned().unwrap_or_default();
+        struct Up {
+            step: Value,
+            ci: usize,
+            a: Uuid,
+            tok: i64,
+            pieces: Vec<Vec<u8>>,
+            next: usize,
+            conn: Option<crate::sock::Upload>,
+        }
+        let mut st: Vec<Up> = vec![];
+        for u in &ups {
+            let cnum = u["c"].as_i64().unwrap_or(1);
+            let ci = (cnum - 1).max(0) as usize;
+            let (a, tok, body) = self.upload_args(u, ci);
+            let npieces = u["pieces"].as_u64().unwrap_or(3).max(1) as usize;
+            let mut pieces = vec![];
+            let per = (body.len() / npieces).max(1);
+            let mut off = 0;
+            while off < body.len() {
+                let end = if pieces.len() + 1 == npieces { body.len() } else { (off + per).min(body.len()) };
+                pieces.push(body[off..end].to_vec());
+                off = end;
+            }
+            st.push(Up { step: u.clone(), ci, a, tok, pieces, next: 0, conn: None });
+        }
+        let mut stop = false;
+        let order: Vec<i64> = s["order"].as_array().map(|a| a.iter().filter_map(|x| x.as_i64()).collect()).unwrap_or_default();
+        let finish = |me: &mut Runner, u: &mut Up, events: &mut Vec<Value>, idx: usize| -> bool {
+            let op = u.step["op"].as_str().unwrap_or("AddVersion").to_string();
+            let res = match u.conn.take() {
+                Some(c) => c.finish(),
+                None => Err("upload never began".to_string()),
+            };
+            let (out, h) = match res {
+                Ok((info, b)) => (decode(&op, &info, b), Some(info)),
+                Err(m) => (Out::Error { msg: format!("socket: {m}") }, None),
+            };
+            me.injected = Some(Injected { a: u.a, tok: u.tok, out, h });
+            let (ev, stop) = me.step(&u.step, idx);
+            events.push(ev);
+            stop
+        };
+        for o in order {
+            if stop {
+                break;
+            }
+            if o < 0 {
+                for b in s["between"].as_array().cloned().unwrap_or_default() {
+                    let (ev, st2) = self.step(&b, idx);
+                    events.push(ev);
+                    if st2 {
+                        stop = true;
+                        break;
+                    }
+                }
+                continue;
+            }
+            let i = o as usize;
+            if i >= st.len() || st[i].next > st[i].pieces.len() {
+                continue;
+            }
+            if st[i].conn.is_none() && st[i].next == 0 {
+                let u = &st[i];
+                let op = u.step["op"].as_str().unwrap_or("AddVersion");
+                let (route, ct) = if op == "AddVersion" { ("add-version", HS_CT) } else { ("add-snapshot", SNAP_CT) };
+                let c = self.clients[u.ci];
+                let head = vec![("X-Client-Id".to_string(), c.to_string().into_bytes()), ("Content-Type".to_string(), ct.as_bytes().to_vec())];
+                st[i].conn = crate::sock::Upload::begin(&addr, &format!("/v1/client/{route}/{}", u.a), &head).ok();
+            }
+            let k = st[i].next;
+            if k < st[i].pieces.len() {
+                let piece = st[i].pieces[k].clone();
+                if let Some(c) = st[i].conn.as_mut() {
+                    c.send(&piece);
+                }
+                st[i].next += 1;
+                // give the server the time to take the piece in (the point of the exercise is what it does with it)
+                std::thread::sleep(std::time::Duration::from_millis(s["pause_ms"].as_u64().unwrap_or(15)));
+            }
+            if st[i].next == st[i].pieces.len() {
+                st[i].next += 1; // finished
+                let mut u = std::mem::replace(&mut st[i], Up { step: Value::Null, ci: 0, a: Uuid::nil(), tok: 0, pieces: vec![], next: 1, conn: None });
+                if finish(self, &mut u, &mut events, idx) {
+                    stop = true;
+                }
+            }
+        }
+        // whatever has not been completed by the order is completed now, in index order
+        for i in 0..st.len() {
+            if stop || st[i].step.is_null() {
+                continue;
+            }
+            while st[i].next < st[i].pieces.len() {
+                let piece = st[i].pieces[st[i].next].clone();
+                if let Some(c) = st[i].conn.as_mut() {
+                    c.send(&piece);
+                }
+                st[i].next += 1;
+            }
+            let mut u = std::mem::replace(&mut st[i], Up { step: Value::Null, ci: 0, a: Uuid::nil(), tok: 0, pieces: vec![], next: 1, conn: None });
+            if u.conn.is_some() && finish(self, &mut u, &mut events, idx) {
+                stop = true;
+            }
+        }
+        (events, stop)
     }
 
     /// Execute one step; returns the event and whether the run must stop (divergence from plan).
@@ -466,45 +660,11 @@ impl Runner {
             }
             "AddVersion" | "AddSnapshot" => {
                 let c = self.clients[ci];
-                // "replay": k = send again exactly the (parent, payload) of the k-th accepted version counted from the latest
-                let replay = s.get("replay").and_then(|x| x.as_u64()).and_then(|k| {
-                    let acc = &self.ledger.acc[ci];
-                    let toks = &self.ledger.toks[ci];
-                    if acc.is_empty() || toks.len() != acc.len() {
-                        None
-                    } else {
-                        let i = acc.len() - 1 - (k as usize).min(acc.len() - 1);
-                        self.pay.bytes_of(toks[i]).cloned().map(|b| (acc[i].1, toks[i], b))
-                    }
-                });
-                let a = match &replay {
-                    Some((p, _, _)) => *p,
-                    None => self.resolve(&s["arg"], ci),
-                };
-                let (tok, body) = match s.get("bytes").and_then(|b| b.as_str()) {
-                    _ if replay.is_some() => {
-                        let (_, t, b) = replay.clone().unwrap();
-                        (t, b)
-                    }
-                    Some(hex) => {
-                        let b = crate::unhex(hex);
-                        (self.pay.intern(b.clone()), b)
-                    }
-                    None if s.get("gen").map(|g| g.is_object()).unwrap_or(false) => {
-                        let g = &s["gen"];
-                        let b = gen_payload(g["cls"].as_str().unwrap_or("random"), g["size"].as_u64().unwrap_or(1) as usize,
-                                            g["seed"].as_u64().unwrap_or(1) + ((self.run as u64) << 32));
-                        (self.pay.intern(b.clone()), b)
-                    }
-                    None if s.get("size").and_then(|x| x.as_u64()).is_some() => {
-                        let n = self.pay.fresh_tok();
-                        let b = big_payload(n + (self.run << 20), s["size"].as_u64().unwrap() as usize);
-                        (self.pay.intern(b.clone()), b)
-                    }
-                    None => {
-                        let tok = self.pay.fresh_tok();
-                        (tok, self.pay.make(tok))
-                    }
+                // an upload that was carried out by an "Overlap" step: only its bookkeeping happens here
+                let inj = self.injected.take();
+                let (a, tok, body) = match &inj {
+                    Some(i) => (i.a, i.tok, vec![]),
+                    None => self.upload_args(s, ci),
                 };
                 req["arg"] = json!(self.namer.name(a));
                 req["tok"] = json!(tok);
@@ -512,7 +672,9 @@ impl Runner {
                 let st_for_create = self.storage.as_ref().unwrap().clone();
                 let d = self.driver.as_mut().unwrap();
                 let chunklist: Vec<usize> = s["chunklist"].as_array().map(|l| l.iter().filter_map(|x| x.as_u64().map(|n| n as usize)).collect()).unwrap_or_default();
-                let (mut out, h) = if !chunklist.is_empty() && d.level() == "http" {
+                let (mut out, h) = if let Some(i) = inj {
+                    (i.out, i.h)
+                } else if !chunklist.is_empty() && d.level() == "http" {
                     // the same request with the body delivered in the given chunk sizes
                     let (route, ct) = if op == "AddVersion" { ("add-version", HS_CT) } else { ("add-snapshot", SNAP_CT) };
                     let rr = RawReq {
@@ -815,6 +977,14 @@ impl Runner {
             "prefix" => headers.push(("Content-Type".into(), format!("{}x", right.unwrap_or(HS_CT)).into_bytes())),
             _ => {}
         }
+        // request headers the protocol gives no meaning to (SyncHttp: they never change the class of a request)
+        if let Some(xh) = g["xh"].as_array() {
+            for h in xh {
+                if let (Some(k), Some(v)) = (h[0].as_str(), h[1].as_str()) {
+                    headers.push((k.to_string(), v.as_bytes().to_vec()));
+                }
+            }
+        }
         let size = g["size"].as_u64().unwrap_or(0) as usize;
         let mut body = vec![];
         if size > 0 {
@@ -876,12 +1046,14 @@ pub fn run_job(job: &Value, scratch: &std::path::Path, w: &mut dyn Write) -> any
     writeln!(w, "{}", ev)?;
     let steps = job["steps"].as_array().cloned().unwrap_or_default();
     for (i, s) in steps.iter().enumerate() {
-        let (ev, stop) = r.step(s, i);
-        writeln!(w, "{}", ev)?;
-        n += 1;
-        if ev.get("toolerr").is_some() {
-            r.cleanup();
-            anyhow::bail!("tool error at step {i}: {}", ev["toolerr"]);
+        let (evs, stop) = r.step_multi(s, i);
+        for ev in evs {
+            writeln!(w, "{}", ev)?;
+            n += 1;
+            if ev.get("toolerr").is_some() {
+                r.cleanup();
+                anyhow::bail!("tool error at step {i}: {}", ev["toolerr"]);
+            }
         }
         if stop {
             div_at = i as i64;
